@@ -25,10 +25,15 @@ Record Pos := mkPos { p_base : nat; p_jit : nat }.
 Definition pos_close (a b : Pos) : bool := p_base a =? p_base b.
 Definition pos0 : Pos := mkPos 0 0.
 
-Record Fix := mkFix { f_inval : bool; f_copy : bool; f_token : bool }.
-Definition repaired : Fix := mkFix true true true.
-Definition first_repair : Fix := mkFix true false false.
-Definition pinned : Fix := mkFix false false false.
+(* f_pername: the reference of bf42345 is kept PER raw-kriging store name (a dict); false = one shared slot.
+   f_condcopy: Krige keeps copies of the conditioning arrays (cond_pos, cond_val: krige/tools.set_condition;
+   ext_drift, cond_err: the copy commit); false = views of the caller's arrays. *)
+Record Fix := mkFix { f_inval : bool; f_copy : bool; f_token : bool; f_pername : bool; f_condcopy : bool }.
+Definition repaired : Fix := mkFix true true true true true.
+Definition first_repair : Fix := mkFix true false false true true.
+Definition pinned : Fix := mkFix false false false true true.
+Definition shared_ref : Fix := mkFix true true true false true.     (* one reference slot for all store names *)
+Definition aliased_cond : Fix := mkFix true true true true false.  (* conditioning arrays are views *)
 
 (* what a raw kriging field / kriging variance was computed from *)
 Record KDesc := mkKDesc {
@@ -41,9 +46,10 @@ Record KDesc := mkKDesc {
 
 Record St := mkSt {
   st_pos : option Pos; st_mesh : bool;  (* Krige._pos / _mesh_type (CondSRF delegates to them) *)
-  st_cnames : list nat;                 (* CondSRF.field_names: 0 field, 1 raw_field, 2 raw_krige *)
+  st_cnames : list nat;                 (* CondSRF.field_names; name set ns (0 = default names, 1, 2, ... = custom
+                                           store=[...] lists): 3*ns field, 3*ns+1 raw field, 3*ns+2 raw kriging field *)
   st_knames : list nat;                 (* Krige.field_names:   0 field, 1 krige_var *)
-  st_rk : KDesc;                        (* what the stored CondSRF.raw_krige was computed from *)
+  st_rk : nat -> KDesc;                 (* per name set: what the stored raw kriging field was computed from *)
   st_kv : KDesc;                        (* what the stored Krige.krige_var was computed from *)
   st_cond : nat; st_model : nat;        (* current versions: conditions, live model content *)
   st_matmodel : nat;                    (* model content of the current Krige._krige_mat *)
@@ -51,17 +57,20 @@ Record St := mkSt {
   st_next : nat;                        (* next unused version number / object identity *)
   st_seed : nat;                        (* seed of the generator *)
   st_kvid : nat;                        (* identity of the array object stored as Krige.krige_var *)
-  st_ref : option (nat * bool * Pos)    (* CondSRF._krige_ref["raw_krige"]: (krige_var object, mesh type, pos) *)
+  st_ref : nat -> option (nat * bool * Pos)   (* CondSRF._krige_ref[name]: (krige_var object, mesh type, pos) *)
 }.
 
 Inductive CondKind := NewVals | NewPos | Refresh.
 Inductive Op :=
-| Call (p : option (Pos * bool)) (sd : option nat) (srk : bool)
-                                     (* csrf(pos, seed, mesh_type, store=[True, True, srk]) *)
+| Call (p : option (Pos * bool)) (sd : option nat) (srk : bool) (ns : nat)
+                                     (* csrf(pos, seed, mesh_type, store=[name, raw name, raw kriging name or False])
+                                        with the names of name set ns; srk = false: the raw kriging field is not stored *)
 | SetPos (p : Pos) (m : bool)                        (* csrf.set_pos(pos, mesh_type) *)
 | SetCond (k : CondKind)                             (* csrf.krige.set_condition(...) *)
 | ModelInplace                                       (* csrf.model.len_scale = ... (no refresh) *)
-| SetModel | SetMean | SetTrend | SetNorm            (* csrf.model = ..., csrf.mean = ..., ... *)
+| SetModel | SetMean | SetTrend | SetNorm            (* csrf.model = <new object>, csrf.mean = ..., ... *)
+| ReassignModel                                      (* csrf.model = csrf.model (the same, possibly edited, object) *)
+| MutateCond              (* the caller edits IN PLACE an array passed as cond_pos / cond_val / ext_drift *)
 | SetGen (sd : nat)                                  (* csrf.set_generator("RandMeth", seed=sd) *)
 | MutatePos (q : Pos)       (* the caller edits IN PLACE the array last passed as pos; it now holds q *)
 | KrigeCall (p : option (Pos * bool))                (* csrf.krige(pos, mesh_type) called directly *)
@@ -85,9 +94,11 @@ Definition desc0 : KDesc := mkKDesc pos0 false 0 0 0 0.
 
 (* the freshly built object: Krige(model, cond, mean, normalizer, trend) from the current settings,
    CondSRF(krige, seed=current seed); nothing stored, no position *)
-Definition init (sd : nat) : St := mkSt None false [] [] desc0 desc0 0 0 0 0 1 sd 0 None.
+Definition init (sd : nat) : St := mkSt None false [] [] (fun _ => desc0) desc0 0 0 0 0 1 sd 0 (fun _ => None).
 Definition fresh_of (s : St) : St :=
-  mkSt None false [] [] desc0 desc0 (st_cond s) (st_model s) (st_model s) (st_mtn s) (st_next s) (st_seed s) 0 None.
+  mkSt None false [] [] (fun _ => desc0) desc0 (st_cond s) (st_model s) (st_model s) (st_mtn s) (st_next s) (st_seed s)
+       0 (fun _ => None).
+Definition upd {A} (f : nat -> A) (n : nat) (v : A) : nat -> A := fun k => if k =? n then v else f k.
 
 (* Field.set_pos as overridden by CondSRF.set_pos: new pos and mesh type are stored; all stored fields of
    CondSRF and of Krige are deleted when the mesh type changed or not _pos_equal(old, new) *)
@@ -112,41 +123,48 @@ Definition with_pos (s : St) (q : Pos) : St :=
        (st_matmodel s) (st_mtn s) (st_next s) (st_seed s) (st_kvid s) (st_ref s).
 
 (* bf42345: the stored krige_var is the object remembered with raw_krige, same mesh type, _pos_equal positions *)
-Definition token_ok (s : St) : bool :=
-  match st_ref s with
+Definition slot (fx : Fix) (ns : nat) : nat := if f_pername fx then ns else 0.
+Definition token_ok (fx : Fix) (s : St) (ns : nat) : bool :=
+  match st_ref s (slot fx ns) with
   | Some (id, m, rp) => (st_kvid s =? id) && Bool.eqb (st_mesh s) m && pos_close (cur_pos s) rp
   | None => false
   end.
 
 (* the part of CondSRF.__call__ after pre_pos (krige_store default, store = [True, True, srk]) *)
-Definition finish_call (fx : Fix) (s2 : St) (del srk : bool) : St * Res :=
-  let reuse := negb del && has 2 (st_cnames s2) && has 1 (st_knames s2)
-               && (if f_token fx then token_ok s2 else true) in
+(* Field.get_store_config: store=[n0, n1, False] gives the raw kriging field its DEFAULT name (not stored), so the
+   reuse decision of such a call looks at the default-named raw kriging field *)
+Definition rkset (srk : bool) (ns : nat) : nat := if srk then ns else 0.
+Definition finish_call (fx : Fix) (s2 : St) (del srk : bool) (ns : nat) : St * Res :=
+  let rn := rkset srk ns in
+  let reuse := negb del && has (3 * rn + 2) (st_cnames s2) && has 1 (st_knames s2)
+               && (if f_token fx then token_ok fx s2 rn else true) in
   let cur := cur_desc s2 in
-  let k := if reuse then st_rk s2 else cur in
+  let k := if reuse then st_rk s2 rn else cur in
   let v := if reuse then st_kv s2 else cur in
   (* the krige call stores krige_var; then krige.post_field(..., "field") if not reuse or missing *)
   let kn := add_name 0 (if reuse then st_knames s2 else add_name 1 (st_knames s2)) in
   (* raw_krige (only if not reuse and wanted), raw_field, field *)
-  let cn := add_name 0 (add_name 1 (if reuse || negb srk then st_cnames s2 else add_name 2 (st_cnames s2))) in
+  let cn := add_name (3 * ns) (add_name (3 * ns + 1)
+              (if reuse || negb srk then st_cnames s2 else add_name (3 * ns + 2) (st_cnames s2))) in
   (mkSt (st_pos s2) (st_mesh s2) cn kn
-        (if reuse || negb srk then st_rk s2 else cur) v
+        (if reuse || negb srk then st_rk s2 else upd (st_rk s2) ns cur) v
         (st_cond s2) (st_model s2) (st_matmodel s2) (st_mtn s2)
         (if reuse then st_next s2 else S (st_next s2)) (st_seed s2)
         (if reuse then st_kvid s2 else st_next s2)
-        (if reuse || negb srk then st_ref s2 else Some (st_next s2, st_mesh s2, cur_pos s2)),
+        (if reuse || negb srk then st_ref s2
+         else upd (st_ref s2) (slot fx ns) (Some (st_next s2, st_mesh s2, cur_pos s2))),
    RField (mkOut reuse k v (st_model s2) (st_seed s2) (st_mtn s2))).
 
-Definition do_call (fx : Fix) (s : St) (p : option (Pos * bool)) (sd : option nat) (srk : bool) : St * Res :=
+Definition do_call (fx : Fix) (s : St) (p : option (Pos * bool)) (sd : option nat) (srk : bool) (ns : nat) : St * Res :=
   (* self.generator.update(self.model, seed) — happens before pre_pos may raise *)
   let s1 := match sd with Some x => with_seed s x | None => s end in
   (* self.pre_pos(pos, mesh_type, info=True) *)
   match p with
   | None => match st_pos s1 with
             | None => (s1, RErr)                         (* ValueError: no position tuple present *)
-            | Some _ => finish_call fx s1 false srk
+            | Some _ => finish_call fx s1 false srk ns
             end
-  | Some (q, m) => let '(s2, del) := do_set_pos s1 q m in finish_call fx s2 del srk
+  | Some (q, m) => let '(s2, del) := do_set_pos s1 q m in finish_call fx s2 del srk ns
   end.
 
 (* Krige.__call__ called directly (default store): field, then krige_var are stored in Krige *)
@@ -187,9 +205,18 @@ Definition do_set_mtn (fx : Fix) (s : St) : St :=
 Definition do_mutate_pos (fx : Fix) (s : St) (q : Pos) : St :=
   if f_copy fx then s else match st_pos s with Some _ => with_pos s q | None => s end.
 
+(* the caller edits a conditioning array in place: with views the live conditioning data change, nothing is invalidated *)
+Definition do_mutate_cond (fx : Fix) (s : St) : St :=
+  if f_condcopy fx then s else
+  mkSt (st_pos s) (st_mesh s) (st_cnames s) (st_knames s) (st_rk s) (st_kv s)
+       (st_next s) (st_model s) (st_matmodel s) (st_mtn s) (S (st_next s)) (st_seed s) (st_kvid s) (st_ref s).
+
 Definition step (fx : Fix) (s : St) (op : Op) : St * Res :=
   match op with
-  | Call p sd srk => do_call fx s p sd srk
+  | Call p sd srk ns => do_call fx s p sd srk ns
+  (* Krige.model setter with the object it already holds: 2a36b2f = set_condition(); before = nothing *)
+  | ReassignModel => ((if f_inval fx then do_set_cond fx s Refresh else s), RNone)
+  | MutateCond => (do_mutate_cond fx s, RNone)
   | SetPos p m => (fst (do_set_pos s p m), RNone)
   | SetCond k => (do_set_cond fx s k, RNone)
   | ModelInplace => (do_model_inplace s, RNone)
@@ -208,7 +235,7 @@ Definition refreshed (s : St) : Prop := st_matmodel s = st_model s.
 
 (* what a freshly built object returns for the current settings, position and seed *)
 Definition fresh_result (s : St) : Res :=
-  snd (step repaired (fresh_of s) (Call (Some (cur_pos s, st_mesh s)) None true)).
+  snd (step repaired (fresh_of s) (Call (Some (cur_pos s, st_mesh s)) None true 0)).
 
 (* two results describe the same field (the branch flag is not part of the field) *)
 Definition same_field (a b : Res) : Prop :=
@@ -222,7 +249,7 @@ Definition same_field (a b : Res) : Prop :=
    so two positions are _pos_equal only if they are identical *)
 Definition op_pos (op : Op) : option Pos :=
   match op with
-  | Call (Some (q, _)) _ _ | SetPos q _ | MutatePos q | KrigeCall (Some (q, _)) | AssignPos q => Some q
+  | Call (Some (q, _)) _ _ _ | SetPos q _ | MutatePos q | KrigeCall (Some (q, _)) | AssignPos q => Some q
   | _ => None
   end.
 Definition clean_op (op : Op) : Prop := match op_pos op with Some q => p_jit q = 0 | None => True end.
@@ -231,7 +258,7 @@ Definition clean (ops : list Op) : Prop := Forall clean_op ops.
 (* ------------------------------------------------------------------ executable trace (correspondence) *)
 Definition zb (b : bool) : Z := if b then 1%Z else 0%Z.
 Definition zn (n : nat) : Z := Z.of_nat n.
-Definition enc_names (l : list nat) : Z := fold_left (fun acc n => (acc * 4 + zn n + 1)%Z) l 0%Z.
+Definition enc_names (l : list nat) : Z := fold_left (fun acc n => (acc * 16 + zn n + 1)%Z) l 0%Z.
 Definition enc_desc (d : KDesc) : list Z :=
   [zn (p_base (k_pos d)); zn (p_jit (k_pos d)); zb (k_mesh d); zn (k_cond d); zn (k_matmodel d);
    zn (k_model d); zn (k_mtn d)].
@@ -248,20 +275,22 @@ Definition enc_row (s : St) (r : Res) : list Z :=
   enc_res r ++ [enc_names (st_cnames s); enc_names (st_knames s);
                 match st_pos s with Some _ => 1%Z | None => 0%Z end] ++ enc_desc (cur_desc s) ++ [zn (st_seed s)].
 
-(* row = [code; haspos; base; jit; mesh; seed+1; nosave] *)
+(* row = [code; haspos; base; jit; mesh; seed+1; nosave; chunk option (not part of the model); name set] *)
 Definition dec_op (r : list Z) : Op :=
   let g i := Z.to_nat (nth i r 0%Z) in
   let q := mkPos (g 2) (g 3) in
   let ps := if (g 1 =? 0) then None else Some (q, negb (g 4 =? 0)) in
   match g 0 with
-  | 0 => Call ps (if g 5 =? 0 then None else Some (g 5 - 1)) (g 6 =? 0)
+  | 0 => Call ps (if g 5 =? 0 then None else Some (g 5 - 1)) (g 6 =? 0) (g 8)
   | 1 => SetPos q (negb (g 4 =? 0))
   | 2 => SetCond NewVals | 3 => SetCond NewPos | 4 => SetCond Refresh
   | 5 => ModelInplace | 6 => SetModel | 7 => SetMean | 8 => SetTrend | 9 => SetNorm
   | 10 => SetGen (g 5 - 1)
   | 11 => MutatePos q
   | 12 => KrigeCall ps
-  | _ => AssignPos q
+  | 13 => AssignPos q
+  | 14 => ReassignModel
+  | _ => MutateCond
   end.
 
 Fixpoint trace_from (fx : Fix) (s : St) (ops : list Op) : list (list Z) :=
@@ -269,9 +298,8 @@ Fixpoint trace_from (fx : Fix) (s : St) (ops : list Op) : list (list Z) :=
   | [] => []
   | op :: r => let '(s', res) := step fx s op in enc_row s' res :: trace_from fx s' r
   end.
-(* fixes: three flags (2a36b2f, 002fae9, bf42345) *)
-Definition trace (f1 f2 f3 : bool) (sd0 : nat) (rows : list (list Z)) : list (list Z) :=
-  trace_from (mkFix f1 f2 f3) (init sd0) (map dec_op rows).
+Definition trace (f1 f2 f3 f4 f5 : bool) (sd0 : nat) (rows : list (list Z)) : list (list Z) :=
+  trace_from (mkFix f1 f2 f3 f4 f5) (init sd0) (map dec_op rows).
 
 (* ------------------------------------------------------------------ Part 2: the conditioning formula *)
 Section Formula.
